@@ -107,8 +107,9 @@ Iteration ==
 Finish ==
   /\ status = "Running" /\ ~Continue
   /\ status' = "Done"
-  \* at least two rows: the state after the loop is appended when fewer were recorded
-  /\ rows' = IF Len(rows) < 2 THEN Append(rows, [x |-> x, t |-> t, fl |-> {}, tAt |-> t, term |-> FALSE, y |-> y * 8, vy |-> vy * 8]) ELSE rows
+  \* at least two rows: the state after the loop is appended when fewer than two RANGE rows were recorded (event rows do
+  \* not count: the extra-data result keeps the closing row of the plain one)
+  /\ rows' = IF Cardinality({j \in DOMAIN rows : "R" \in rows[j].fl}) < 2 THEN Append(rows, [x |-> x, t |-> t, fl |-> {}, tAt |-> t, term |-> FALSE, y |-> y * 8, vy |-> vy * 8]) ELSE rows
   /\ UNCHANGED <<sc, x, t, vy, y, it, ctl, reason, prevX, prevT, prevY>>
 
 Next == Iteration \/ Finish
